@@ -868,15 +868,89 @@ theorem raise_up_plain (hcfg : CfgOk cfg) {s : State} (hlen : s.bets.length = cf
         have hbp : getI s.bets p ≤ maxI s.bets := getI_le_maxI _ _ (by omega)
         omega
 
+/-- (g) as a fact about one state: while the bring-in may still be completed, the first street is being played
+    and nobody has more than the bring-in in front of him -/
+def CompletionBounded (cfg : Config) (s : State) : Prop :=
+  s.completionStatus = true → s.streetIndex = some 0 ∧ ∀ i, i < cfg.n → getI s.bets i ≤ cfg.bringIn
+
+theorem validate_bringIn (hcfg : CfgOk cfg) {st0 : Street} (h0 : cfg.streets[0]? = some st0) :
+    cfg.bringIn < st0.minBet := by
+  have := hcfg.valid
+  unfold Config.validate at this
+  split at this
+  · rename_i hnil; rw [hnil] at h0; cases h0
+  · rename_i st0' tl hcons
+    rw [hcons] at h0
+    simp only [List.getElem?_cons_zero, Option.some.injEq] at h0
+    subst h0
+    repeat' split at this
+    all_goals try (cases this; done)
+    simp only [Int.not_le, ge_iff_le] at *
+    omega
+
+/-- a completion of the bring-in is to at least the largest bet, in a state where (g) holds: the small bet
+    of the first street is above the bring-in -/
+theorem raise_up_completion (hcfg : CfgOk cfg) {s : State} (hlen : s.bets.length = cfg.n) {a : Option Int}
+    {amt : Int} (hcan : ∀ p tail, s.actors = p :: tail → p < cfg.n ∧ getB s.statuses p = true)
+    (h : s.verifyCbr cfg a = .ok amt) (hcomp : s.completionStatus = true) (hg : CompletionBounded cfg s) :
+    maxI s.bets ≤ amt := by
+  obtain ⟨hidx, hbound⟩ := hg hcomp
+  obtain ⟨p, mn, h0, hmn, hle⟩ := verifyCbr_min h
+  obtain ⟨⟨tail, ha⟩, hstack, i, hi, hip, hsi, hti⟩ := verifyCbr0_facts h0
+  obtain ⟨hp, hsp⟩ := hcan p tail ha
+  have hmaxb : maxI s.bets ≤ cfg.bringIn := by
+    have hne : s.bets ≠ [] := by intro h; rw [h] at hlen; simp at hlen; omega
+    obtain ⟨j, hj, hje⟩ := mem_getI (maxI_mem s.bets hne)
+    rw [← hje]; exact hbound j (by omega)
+  unfold State.minCbrTo at hmn
+  rw [h0] at hmn
+  simp only [] at hmn
+  split at hmn
+  · cases hmn
+  · rename_i st hst
+    have hmb : cfg.bringIn < st.minBet := by
+      apply validate_bringIn hcfg
+      unfold State.street at hst
+      rw [hidx] at hst
+      simp only [] at hst
+      split at hst
+      · rename_i k hk
+        unfold pyIndex at hk
+        simp only [Int.le_refl, if_true, Int.toNat_zero] at hk
+        split at hk
+        · cases hk; exact hst
+        · cases hk
+      · cases hst
+    rw [hcomp] at hmn
+    simp only [Bool.not_true, Bool.false_eq_true, if_false] at hmn
+    split at hmn
+    · cases hmn
+    · rename_i eff he
+      injection hmn with hmn
+      injection hmn with hmn
+      unfold State.effectiveStack at he
+      have g1 : (s.streetIndex.isNone || !getB s.statuses p) = false := by rw [hidx]; simp [hsp]
+      rw [if_neg (by rw [g1]; exact Bool.false_ne_true)] at he
+      simp only [] at he
+      split at he
+      · cases he
+      · injection he with he
+        have key := second_ge_min cfg.n
+          (fun j => if getB s.statuses j = true then some (getI s.bets j + getI s.stacks j) else none)
+          p i hp hi (Ne.symm hip) (getI s.bets p + getI s.stacks p) (getI s.bets i + getI s.stacks i)
+          (by simp [hsp]) (by simp [hsi])
+        unfold State.playerIndices at he
+        generalize (sortI (List.filterMap (fun j => if getB s.statuses j = true then
+          some (getI s.bets j + getI s.stacks j) else none) (List.range cfg.n))) = srt at he key
+        generalize srt.getD (srt.length - 2) 0 = second at he key
+        have hbp : getI s.bets p ≤ maxI s.bets := getI_le_maxI _ _ (by omega)
+        omega
+
 /-! ### whole histories -/
 
-/-- side condition (g): *completing the bring-in* is to at least the largest bet on the table.  (For every
-    other bet or raise this is `raise_up_plain`; for a completion it follows from facts about a stud hand
-    that are not part of this model's invariants: the configuration admits a bring-in only without blinds and
-    below the small bet, so nobody has more than the bring-in in front of him while it may be completed.) -/
+/-- side condition (g) of a history: whenever a bet or raise is attempted, `CompletionBounded` holds -/
 def CompletesUp (cfg : Config) (m : M) : Prop :=
-  ∀ a rest amt, m.ctl = .opCbr a :: rest → m.st.completionStatus = true →
-    m.st.verifyCbr cfg a = .ok amt → maxI m.st.bets ≤ amt
+  ∀ a rest, m.ctl = .opCbr a :: rest → CompletionBounded cfg m.st
 
 /-- histories without an escaping internal exception (refused operations are part of the history) that
     satisfy (b) and (g) -/
@@ -902,10 +976,7 @@ theorem ledger_clean (hcfg : CfgOk cfg) (m : M) (hL : Ledger cfg m.st) (hb : NoC
 theorem raiseUp_of (hcfg : CfgOk cfg) {m : M} (hL : Ledger cfg m.st) (hR : RoundInv cfg m)
     (hg : CompletesUp cfg m) : RaiseUp cfg m := by
   intro a rest amt hctl hv
-  cases hcs : m.st.completionStatus with
-  | true => exact hg a rest amt hctl hcs hv
-  | false =>
-    refine raise_up_plain hcfg hL.lenBets ?_ hv hcs
+  have hcan : ∀ p tail, m.st.actors = p :: tail → p < cfg.n ∧ getB m.st.statuses p = true := by
     intro p tail ha
     have := (core_of_cons hR ha).can p (by rw [ha]; exact List.mem_cons_self)
     refine ⟨this.1, ?_⟩
@@ -913,6 +984,9 @@ theorem raiseUp_of (hcfg : CfgOk cfg) {m : M} (hL : Ledger cfg m.st) (hR : Round
     unfold State.canAct at h2
     simp only [Bool.and_eq_true] at h2
     exact h2.1
+  cases hcs : m.st.completionStatus with
+  | true => exact raise_up_completion hcfg hL.lenBets hcan hv hcs (hg a rest hctl)
+  | false => exact raise_up_plain hcfg hL.lenBets hcan hv hcs
 
 theorem RoundReach.invs (hcfg : CfgOk cfg) {m : M} (h : RoundReach cfg env m) :
     Ledger cfg m.st ∧ RoundInv cfg m := by
@@ -1011,7 +1085,7 @@ theorem RoundReach.steps : ∀ (k : Nat) {m : M}, RoundReach cfg env m →
   | k + 1, m, h, hc => by
     obtain ⟨h1, h2, h3⟩ := hc 0 (Nat.succ_pos k)
     have hs : RoundReach cfg env (M.step cfg env m) :=
-      .step h (Or.inl h1) h2 (fun _ _ _ _ hcs _ => by
+      .step h (Or.inl h1) h2 (fun _ _ _ hcs => by
         have h3' : m.st.completionStatus = false := h3
         rw [h3'] at hcs; cases hcs)
     exact RoundReach.steps k hs (fun j hj => hc (j + 1) (Nat.succ_lt_succ hj))
